@@ -21,7 +21,9 @@ for pid in ids:
         engine=c.get("engine", "kani-overlay"),
         level_claimed=dict(category=c.get("level", "model_checking"), text=c["level_text"], design_ref=c.get("design_ref", "DESIGN.md section 4/" + pid)),
         level_note=c["level_note"],
-        technique=c.get("technique", "bounded model checking of the real code (Kani 0.68 / CBMC 6.11 + CaDiCaL): symbolic inputs, solver verdict, native replay of counterexamples"),
+        technique=c.get("technique", "bounded model checking of the real code (Kani 0.68 / CBMC 6.11 + CaDiCaL): symbolic inputs, solver verdict, native replay of counterexamples"
+                        + ("; plus symbolic execution of the crate's rustc MIR into SMT (mirsym: polynomial integer / GF(2^255-19) ring / bit-vector domains, decided by z3, "
+                           "a sample re-decided by cvc5 in the thorough tier), counterexamples replayed on the native build" if c.get("extra") else "")),
     ))
 na = [dict(property_id=p, reason=r) for p, r in NOT_APPLICABLE.items() if p not in PROPS]
 missing = [p for p in ids if p not in PROPS and p not in NOT_APPLICABLE]
